@@ -49,6 +49,25 @@ pub fn pk(b: &[u8]) -> PublicKey { PublicKey::try_from(b).expect("32-byte public
 
 #[allow(clippy::too_many_arguments)]
 pub fn key_encrypt(s: &[u8], spk: &[u8], rs: &[u8], e: Option<(&[u8], &[u8])>, payload: Option<&[u8]>, data: &[u8], sc: &Scripts) -> StreamResp {
+    if priming_on() && s.len() == 32 && rs.len() == 32 {
+        let turn = PRIMED.with(|p| { p.set(p.get() + 1); p.get() });
+        // three related operations precede the call under test, in rotating order so that each of them is the LAST one before it in a
+        // third of the calls (state left behind by a failure, or by a success for another peer, must not be consumed by the next priming call):
+        //  - an attempt that FAILS (a low-order recipient key: the handshake is refused half-way),
+        //  - this sender writing to another recipient,
+        //  - another sender writing to the same recipient.
+        let (os, op) = outsider();
+        for k in 0..3u64 {
+            match (turn + k) % 3 {
+                0 => { let _ = guarded(|| { let a = sk(s); let ap = pk(spk); let r = pk(&[0u8; 32]); let mut src: &[u8] = b"priming"; let mut sink = std::io::sink();
+                    let _ = encrypt::key_encrypt(&mut src, &mut sink, &a, &ap, &r, None, None, None, AsymFileFormat::V1); "".into() }); }
+                1 => { if os != s { let _ = guarded(|| { let a = sk(s); let ap = pk(spk); let r = pk(&op); let mut src: &[u8] = b"priming"; let mut sink = std::io::sink();
+                    let _ = encrypt::key_encrypt(&mut src, &mut sink, &a, &ap, &r, None, None, None, AsymFileFormat::V1); "".into() }); } }
+                _ => { if os != s { let _ = guarded(|| { let a = sk(&os); let ap = pk(&op); let r = pk(rs); let mut src: &[u8] = b"priming"; let mut sink = std::io::sink();
+                    let _ = encrypt::key_encrypt(&mut src, &mut sink, &a, &ap, &r, None, None, None, AsymFileFormat::V1); "".into() }); } }
+            }
+        }
+    }
     let sh = Rc::new(Shared::default());
     let mut r = SReader::new(data, sc.rs, sh.clone());
     let (mut w, st) = SWriter::new(sc.ws, sc.fs, sh.clone());
@@ -59,10 +78,89 @@ pub fn key_encrypt(s: &[u8], spk: &[u8], rs: &[u8], e: Option<(&[u8], &[u8])>, p
         match encrypt::key_encrypt(&mut r, &mut w, &s, &spk, &rs, ep.as_ref().map(|x| &x.0), ep.as_ref().map(|x| &x.1), pl.as_ref(), AsymFileFormat::V1) {
             Ok(()) => "ok".into(), Err(e) => enc_class(&e).into() }
     });
-    finish(res, &sh, &st, None)
+    let resp = finish(res, &sh, &st, None);
+    if resp.res == "ok" && resp.out.len() <= (1 << 20) { RECENT_ENC.with(|l| *l.borrow_mut() = Some((rs.to_vec(), resp.out.clone()))); }
+    resp
+}
+
+// ---- history priming -----------------------------------------------------------------------------------------
+// The properties quantify over single operations, but an implementation may carry hidden state from one call to the
+// next (a memo of the last derived key, a pool of random bytes, a cache keyed by part of its inputs).  Every public
+// entry point is therefore exercised *in a context*: right before the call under test the same thread performs related
+// operations whose results are thrown away — the same input under another key / password, and the last input this
+// thread saw accepted, under its own key / password.  For a stateless implementation (which is what the Lean model
+// says the code is) this changes nothing.
+thread_local! {
+    static LG_KEY: std::cell::RefCell<Option<(Vec<u8>, Vec<u8>, Vec<u8>)>> = const { std::cell::RefCell::new(None) };
+    static LG_PASS: std::cell::RefCell<Option<(Vec<u8>, Vec<u8>)>> = const { std::cell::RefCell::new(None) };
+    static PRIMED: std::cell::Cell<u64> = const { std::cell::Cell::new(0) };
+}
+thread_local! {
+    static KNOWN: std::cell::RefCell<Vec<(Vec<u8>, Vec<u8>)>> = const { std::cell::RefCell::new(Vec::new()) };        // (public, private) pairs the harness derived
+    static RECENT_ENC: std::cell::RefCell<Option<(Vec<u8>, Vec<u8>)>> = const { std::cell::RefCell::new(None) };     // (recipient public key, file) of the last successful key_encrypt
+}
+/// the harness derived `pk` from `sk`: remembered so that a file can be opened by its rightful recipient before somebody else tries
+thread_local! { static INSTABILITY: std::cell::RefCell<Option<String>> = const { std::cell::RefCell::new(None) }; }
+pub fn take_instability() -> Option<String> { INSTABILITY.with(|i| i.borrow_mut().take()) }
+fn note_instability(what: &str, a: &StreamResp, b: &StreamResp) {
+    if a.res != b.res || a.out != b.out || a.sender != b.sender {
+        INSTABILITY.with(|i| { let mut i = i.borrow_mut(); if i.is_none() { *i = Some(format!("{}: the same call on the same thread gave `{}` ({} bytes out) after one sequence of related calls and `{}` ({} bytes out) after another — the result depends on what the thread did before", what, a.res, a.out.len(), b.res, b.out.len())); } });
+    }
+}
+pub fn learn_keypair(sk_: &[u8], pk_: &[u8]) { KNOWN.with(|k| { let mut k = k.borrow_mut(); if !k.iter().any(|(p, _)| p == pk_) { if k.len() >= 64 { k.remove(0); } k.push((pk_.to_vec(), sk_.to_vec())); } }); }
+fn private_of(pk_: &[u8]) -> Option<Vec<u8>> { KNOWN.with(|k| k.borrow().iter().find(|(p, _)| p == pk_).map(|(_, s)| s.clone())) }
+fn priming_on() -> bool { std::env::var("VERIF_NO_PRIMING").is_err() }
+
+fn raw_key_decrypt(r_: &[u8], rpk: &[u8], data: &[u8]) -> bool {
+    guarded(|| {
+        let rk = sk(r_); let rp = pk(rpk);
+        let mut src = data; let mut sink = std::io::sink();
+        match decrypt::key_decrypt(&mut src, &mut sink, &rk, &rp, AsymFileFormat::V1) { Ok(_) => "ok".into(), Err(_) => "err".into() }
+    }) == "ok"
+}
+fn raw_pass_decrypt(pw: &[u8], data: &[u8]) -> bool {
+    guarded(|| { let mut src = data; let mut sink = std::io::sink();
+        match decrypt::pass_decrypt(&mut src, &mut sink, pw, PassFileFormat::V1) { Ok(()) => "ok".into(), Err(_) => "err".into() } }) == "ok"
+}
+/// a fixed key pair nobody else uses (private key bytes 0x42.., clamped by X25519 itself)
+fn outsider() -> (Vec<u8>, Vec<u8>) {
+    let s = vec![0x42u8; 32];
+    let p = sk(&s).to_public().map(|p| p.as_bytes().to_vec()).unwrap_or_else(|_| vec![9u8; 32]);
+    (s, p)
+}
+
+fn prime_key_decrypt(r_: &[u8], rpk: &[u8], data: &[u8], order: u64) {
+    let (os, op) = outsider();
+    let lg = LG_KEY.with(|l| l.borrow().clone());
+    // a failing attempt on the same input (an outsider's key) and the last file this thread saw accepted, in the given order
+    for k in 0..2u64 {
+        if (order + k) % 2 == 0 { if os != r_ { let _ = raw_key_decrypt(&os, &op, data); } }
+        else if let Some((r0, p0, f0)) = &lg { if !(r0 == r_ && f0 == data) && f0.len() <= (1 << 20) { let _ = raw_key_decrypt(r0, p0, f0); } }
+    }
+    // if this very file was just produced for a recipient whose private key the harness holds, and somebody else is about to try it:
+    // the rightful recipient opens it first
+    let rec = RECENT_ENC.with(|l| l.borrow().clone());
+    if let Some((rpub, f)) = rec { if f == data && rpub != rpk { if let Some(rsk) = private_of(&rpub) { if rsk != r_ { let _ = raw_key_decrypt(&rsk, &rpub, data); } } } }
 }
 
 pub fn key_decrypt(r_: &[u8], rpk: &[u8], data: &[u8], sc: &Scripts) -> StreamResp {
+    let plain = sc.rs.is_empty() && sc.ws.is_empty() && sc.fs.is_empty();
+    let on = priming_on() && r_.len() == 32 && rpk.len() == 32;
+    let turn = PRIMED.with(|p| { p.set(p.get() + 1); p.get() });
+    if on { prime_key_decrypt(r_, rpk, data, turn); }
+    let mut resp = key_decrypt_inner(r_, rpk, data, sc);
+    if on && plain && data.len() <= (1 << 20) {
+        // once more after the related calls in the other order: the answer must be the same
+        prime_key_decrypt(r_, rpk, data, turn + 1);
+        let again = key_decrypt_inner(r_, rpk, data, sc);
+        note_instability("key_decrypt", &resp, &again);
+        resp = again;
+    }
+    if resp.res == "ok" && data.len() <= (1 << 20) { LG_KEY.with(|l| *l.borrow_mut() = Some((r_.to_vec(), rpk.to_vec(), data.to_vec()))); }
+    resp
+}
+
+fn key_decrypt_inner(r_: &[u8], rpk: &[u8], data: &[u8], sc: &Scripts) -> StreamResp {
     let sh = Rc::new(Shared::default());
     let mut r = SReader::new(data, sc.rs, sh.clone());
     let (mut w, st) = SWriter::new(sc.ws, sc.fs, sh.clone());
@@ -83,10 +181,52 @@ pub fn pass_encrypt(pw: &[u8], salt: &[u8], data: &[u8], sc: &Scripts) -> Stream
         let salt: [u8; 32] = salt.try_into().expect("32-byte salt");
         match encrypt::pass_encrypt(&mut r, &mut w, pw, salt, PassFileFormat::V1) { Ok(()) => "ok".into(), Err(e) => enc_class(&e).into() }
     });
-    finish(res, &sh, &st, None)
+    let resp = finish(res, &sh, &st, None);
+    if resp.res == "ok" && resp.out.len() <= (1 << 20) { LG_PASS.with(|l| *l.borrow_mut() = Some((pw.to_vec(), resp.out.clone()))); }
+    resp
+}
+
+thread_local! { static CANNED_PASS: std::cell::RefCell<Option<Vec<u8>>> = const { std::cell::RefCell::new(None) }; }
+/// a small password file of this thread's own (another salt, another password): "something else the process handled in between"
+fn canned_pass_file() -> Vec<u8> {
+    CANNED_PASS.with(|c| { let mut c = c.borrow_mut(); if c.is_none() {
+        let mut out = Vec::new(); let mut src: &[u8] = b"canned";
+        let _ = guarded(|| { let _ = encrypt::pass_encrypt(&mut src, &mut out, b"canned password", [7u8; 32], PassFileFormat::V1); "".into() });
+        *c = Some(out); } c.clone().unwrap_or_default() })
+}
+fn prime_pass_decrypt(pw: &[u8], data: &[u8], order: u64) {
+    let mut other = pw.to_vec(); other.push(b'~');
+    if order % 2 == 0 {
+        // an unrelated file, then the same input under another password (a user who mistyped) right before the call
+        let cf = canned_pass_file(); if cf != data { let _ = raw_pass_decrypt(b"canned password", &cf); }
+        let _ = raw_pass_decrypt(&other, data);
+    } else {
+        // the mistyped attempt, then the last file this thread saw accepted right before the call
+        let _ = raw_pass_decrypt(&other, data);
+        let lg = LG_PASS.with(|l| l.borrow().clone());
+        if let Some((pw0, f0)) = &lg { if !(pw0 == pw && f0 == data) { let _ = raw_pass_decrypt(pw0, f0); } }
+    }
 }
 
 pub fn pass_decrypt(pw: &[u8], data: &[u8], sc: &Scripts) -> StreamResp {
+    let plain = sc.rs.is_empty() && sc.ws.is_empty() && sc.fs.is_empty();
+    let turn = PRIMED.with(|p| { p.set(p.get() + 1); p.get() });
+    // every plain call is primed (and made twice, after the related calls in either order); of the fault-injection runs
+    // (one scrypt each, hundreds per file) every fourth is primed, once
+    let on = priming_on() && data.len() <= (1 << 20) && (plain || turn % 4 == 0);
+    if on { prime_pass_decrypt(pw, data, turn); }
+    let mut resp = pass_decrypt_inner(pw, data, sc);
+    if on && plain {
+        prime_pass_decrypt(pw, data, turn + 1);
+        let again = pass_decrypt_inner(pw, data, sc);
+        note_instability("pass_decrypt", &resp, &again);
+        resp = again;
+    }
+    if resp.res == "ok" && data.len() <= (1 << 20) { LG_PASS.with(|l| *l.borrow_mut() = Some((pw.to_vec(), data.to_vec()))); }
+    resp
+}
+
+fn pass_decrypt_inner(pw: &[u8], data: &[u8], sc: &Scripts) -> StreamResp {
     let sh = Rc::new(Shared::default());
     let mut r = SReader::new(data, sc.rs, sh.clone());
     let (mut w, st) = SWriter::new(sc.ws, sc.fs, sh.clone());
